@@ -10,6 +10,41 @@ Two correspondence regimes (DESIGN.md section 4, regime ii):
     colours must be equal unless the exact pre-rounding channel value (asked from the model, op
     `colorx`) lies within 1e-9 of a rounding tie and the channels differ by 1; those cases are
     counted (`near_tie_rounding`) and reported in evidence, anything else is a disagreement.
+
+Round 3 (histories, failure paths, process order).  State lives in: `ColorRange` (`_colors`, `_domain`,
+`_is_domain_set`; setters `colors`, `domain`), `LegendParameters` / `LegendParametersCategorized` (every
+attribute has a setter; `Legend3DParameters` behind `segment_height/width`, `text_height`), `Legend`
+(works on a duplicate of the parameters with the resolved min / max / count stored in it; the user can
+keep assigning to `legend.legend_parameters`), `GraphicContainer` (owns a `Legend`).  No module- or
+class-level mutable state in color.py / legend.py / graphic.py (`Colorset._colors` is a constant table).
+
+Consumers of each modelled producer (each is exercised by the streams named in brackets):
+  * colours + domain of a range (`ColorRange._colors/_domain`): `color()` -> `_cal_color`, `domain`,
+    `colors`, `__len__`, `duplicate()`, `to_dict()/from_dict` [color, crhist: r/s/u; C07 for the dict];
+    `Legend.color_range` builds a new range on every call -> `value_colors`, `segment_colors`,
+    `_segment_mesh_2d` colours, `GraphicContainer.value_colors` [legend, graphic, lhist: ol];
+  * resolved bounds (`Legend.__init__` -> `legend_par.min/max`): `segment_numbers`, `segment_text`,
+    `color_range`, `segment_colors`, `value_colors`, `is_min_default/is_max_default`, `duplicate()`,
+    `to_dict()/from_dict`, `GraphicContainer` default width (`len(str(int(max)))`) [legend, lhist: ol/dl/tl/g];
+  * segment count (`segment_count`, `_is_segment_count_default`, the single-value default):
+    `segment_numbers`, `segment_text`, `segment_colors`, `segment_length`, `_segment_point_scene_2d`,
+    `_segment_mesh_2d`, `GraphicContainer` default height (`max(count, 8)`) [legend, graphic, lhist];
+  * categorised domain / colours / names: `min`, `max`, `segment_count`, `category_names` ->
+    `Legend.segment_text`, `color_range`, `segment_colors`, `__repr__`, `to_dict`, `duplicate` [lhist: op/ol/dp/tp];
+  * label format (`decimal_count`, `include_larger_smaller`, `ordinal_dictionary`): `segment_text`,
+    `category_names` [legend, lhist].
+Not exercised: `color_map_2d`, `title_location*`, `*_2d` screen geometry, `colors_by_set`, `Legend.from_dict`
+flag override, data-type defaults of `GraphicContainer` (unit descriptions).
+
+History streams: `lhist` (one parameters object + the legend built from it: assignments to either
+object incl. refused ones, rebuilds with other data, GraphicContainer builds, duplicates, dict round
+trips, repeated reads) and `crhist` (one ColorRange: colours / domain assignments incl. refused ones,
+duplicates, reads at and between the current stops); compared step by step with the Lean state machines
+(Model/C15Obj.lean) and judged by the history oracle (`lhistory`, `crhistory`: refused = unchanged,
+reads change nothing, no leak between the parameters and the legend, the live object == an object built
+in one go from its public state, the statement's clauses on the live object, last accepted bounds /
+count / domain / names in force).  `process_order`: a slice of all oracle ops in 3-4 fresh interpreters,
+each in another order (rare classes first in one).
 """
 import math
 from fractions import Fraction
@@ -19,8 +54,8 @@ from harness.core import err_name, run_oracle_cases
 
 PROP = 'C15'
 PROOF_MODULES = ['Ladybug.Props.C15']
-GREP_MODULES = ['Ladybug.Py', 'Ladybug.Model.Color', 'Ladybug.Model.Legend', 'Ladybug.Proofs.C15Lemmas',
-                'Ladybug.Drv.C15', 'Ladybug.DrvCore']
+GREP_MODULES = ['Ladybug.Py', 'Ladybug.Model.Color', 'Ladybug.Model.Legend', 'Ladybug.Model.C15Obj',
+                'Ladybug.Proofs.C15Lemmas', 'Ladybug.Proofs.C15Obj', 'Ladybug.Drv.C15', 'Ladybug.DrvCore']
 RULE = ('correspondence: colour lists of 1-20 random colours (repeated / extreme / non-monotone channels, '
         'default set), domains {2 values | one per colour | fewer | single | zero-width | unsorted | empty | '
         'too many}, continuous and segmented, values at every stop, dyadic fractions between stops, just '
@@ -28,7 +63,11 @@ RULE = ('correspondence: colour lists of 1-20 random colours (repeated / extreme
         '(1-20 | default) x vertical/horizontal x gradient/discrete x ordinal dictionary x categorised '
         'parameters x segment dimensions; the full default-resolution grid (data all-equal/varying x bounds '
         'neither/min/max/both/min==max x count default/given x plain/categorised) on every run; exact stream compared bit for bit, float stream with the '
-        'near-tie rule; oracle: the statement of C15 on the real classes; a case is non-trivial when the '
+        'near-tie rule; histories on one object (lhist: parameters + legend, crhist: colour range) in exact '
+        'worlds (pow2 / tens / nines colour and segment counts, zero bounds, single values, refused '
+        'assignments of every kind, rebuilds, duplicates, dict round trips, repeated reads) compared step by '
+        'step with the Lean state machines; a slice of all oracle ops re-run in 3-4 fresh interpreters in '
+        'different orders; oracle: the statement of C15 on the real classes; a case is non-trivial when the '
         'constructor accepts it; distinct = distinct (op, request line)')
 TRUSTED_BASE = [
     'modelled, not verified: ladybug_geometry Mesh2D.from_grid face/vertex counts and its colour-count '
@@ -39,6 +78,10 @@ TRUSTED_BASE = [
     'except at counted rounding ties (coverage.input_distribution near_tie_rounding)',
     'graphic.py: GraphicContainer is modelled without a data type (no unit-description dictionary); '
     'ladybug_geometry points/planes are not modelled',
+    'histories: history-refines-fresh is proved for plain parameters only; categorised parameters, the live '
+    "legend's own parameters and ColorRange objects are compared step by step (lhist / crhist) and judged by "
+    'the history oracle; label-position coordinates and segment dimensions are not observed in histories '
+    '(their counts are); assigning None to a bound of a live legend and negative decimal counts are not generated',
 ]
 ASSUMPTIONS = ['values, domains and legend bounds are finite numbers (no NaN/inf)',
                'segment dimensions are positive (enforced by the setters)']
@@ -855,6 +898,13 @@ def correspondence(ctx):
                 box = (4.0, 4.0, 0.0, 0.0)                                            # inverted box
             gcases.append((c, box))
     compare_graphic(ctx, gcases)
+    # histories on one object: the model's state machines against the real objects, step by step
+    hist = [_full_par_case(inp) for op, inp in CORPUS if op == 'lhistory']
+    hist += [gen_lhist(ctx, rng, rare_first=(i % 7 == 0)) for i in range(ctx.n(700, 7000))]
+    compare_hist(ctx, 'lhist', hist, lhist_line, impl_lhist)
+    chist = [dict(inp, cols=[tuple(x) for x in inp['cols']]) for op, inp in CORPUS if op == 'crhistory']
+    chist += [gen_crhist(ctx, rng, rare_first=(i % 9 == 0)) for i in range(ctx.n(700, 7000))]
+    compare_hist(ctx, 'crhist', chist, crhist_line, impl_crhist)
     # '%.nf' formatting of exact values
     fc = []
     for _ in range(ctx.n(1500, 30000)):
@@ -884,15 +934,16 @@ def _between(x, a, b):
     return min(a, b) <= x <= max(a, b)
 
 
-def check_range(inp):
-    """Colour range clauses.  inp: cols, dom, cont, probes (number of probes between stops)."""
+def check_range(inp, live=None):
+    """Colour range clauses.  inp: cols, dom, cont, probes (number of probes between stops).
+    `live`: evaluate the clauses on this existing range (whose colours / stops `inp` repeats)."""
     from ladybug.color import Color, ColorRange
     cols = [tuple(c) for c in inp['cols']]
     dom_in = list(inp['dom'])
     cont = bool(inp['cont'])
     sig = {'cont': cont}
     try:
-        cr = ColorRange([Color(*c) for c in cols], dom_in, cont)
+        cr = live if live is not None else ColorRange([Color(*c) for c in cols], dom_in, cont)
     except Exception as e:
         return {'required': 'a colour range', 'observed': 'constructor raises %s' % type(e).__name__,
                 'sig': dict(sig, clause='construct')}
@@ -1107,6 +1158,8 @@ def check_legend(inp):
             return fail('categorised_flag', bool(c['cc']), cr.continuous_colors)
         if c['names'] is not None and list(text) != [str(x) for x in c['names']]:
             return fail('categorised_names', c['names'], list(text))
+        if c['names'] is None and tuple(text) != _expected_names(par):
+            return fail('categorised_generated_names', list(_expected_names(par)), list(text))
         if not c['cc']:
             for i, v in enumerate(vals):
                 want = None
@@ -1148,6 +1201,12 @@ def check_case(op, inp):
         return check_range(inp)
     if op == 'legend':
         return check_legend(inp)
+    if op == 'lhistory':
+        return check_lhistory(inp)
+    if op == 'crhistory':
+        return check_crhistory(inp)
+    if op == 'process_order':
+        return check_process_order(inp)
     raise ValueError('unknown op ' + op)
 
 
@@ -1190,6 +1249,29 @@ CORPUS = [
                 'vert': True, 'dc': 2, 'sh': 0.1}),                                        # repaired defect
     ('legend', {'kind': 'plain', 'vals': [0, 5], 'min': 0, 'max': 5, 'count': 6, 'cl': False,
                 'vert': False, 'dc': 2, 'sw': 0.1}),                                       # repaired defect
+    # round 3: histories on one object (inputs of the defects repaired by C15_colors_setter_domain_check
+    # and C15_rejected_setters_keep_state, and the order-of-operations classes)
+    ('crhistory', {'cont': True, 'cols': [], 'dom': [0, 144], 'ops': [
+        ['r', 64], ['c', [[0, 0, 255], [0, 255, 0], [255, 0, 0]]], ['r', 64], ['r', 144], ['r', 72], ['s']]}),
+    ('crhistory', {'cont': True, 'cols': [[0, 0, 0], [128, 128, 128], [255, 255, 255]], 'dom': [0, 10, 20], 'ops': [
+        ['r', 10], ['c', [[255, 0, 0], [0, 0, 255]]], ['r', 15], ['c', [[255, 0, 0], [0, 255, 0], [0, 0, 255]]],
+        ['r', 10], ['r', 5], ['u'], ['r', 5], ['d', [0, 1, 2, 3]], ['r', 15], ['s']]}),
+    ('crhistory', {'cont': True, 'cols': [[0, 0, 0], [255, 255, 255]], 'dom': [0, 16], 'ops': [
+        ['r', 8], ['c', [[255, 0, 0], [0, 255, 0], [0, 0, 255]]], ['s'], ['r', 8], ['r', 4], ['c', []], ['s']]}),
+    ('lhistory', {'kind': 'cat', 'dom': [300, 2000], 'cols': [[0, 0, 255], [0, 255, 0], [255, 0, 0]],
+                  'cl': False, 'vert': True, 'dc': 2, 'ops': [
+        ['op'], ['b', [100, 300, 500, 1000, 2000, 3000]], ['ol'], ['sl', 'dom', [500, 1500]], ['ol'],
+        ['sl', 'dom', [1, 2, 3]], ['ol'], ['sl', 'cols', [[0, 0, 255], [0, 255, 0]]], ['ol'],
+        ['sl', 'names', ['a']], ['ol'], ['sl', 'dc', 0], ['sl', 'ils', False], ['ol'], ['sp', 'dc', 0], ['op'],
+        ['b', [100, 3000]], ['ol']]}),
+    ('lhistory', {'kind': 'plain', 'min': 0, 'max': 9, 'count': 4, 'cl': False, 'vert': True, 'dc': 2, 'ops': [
+        ['b', [0, 3, 6, 9, 4.5]], ['ol'], ['sl', 'min', 50], ['ol'], ['sl', 'max', -5], ['ol'],
+        ['sl', 'cols', [[1, 2, 3]]], ['ol'], ['sp', 'min', 50], ['sp', 'cols', [[1, 2, 3]]], ['op'],
+        ['b', [0, 9]], ['ol'], ['sl', 'count', 0], ['sl', 'sh', 0], ['ol'], ['dl'], ['ol'], ['tl'], ['ol']]}),
+    ('lhistory', {'kind': 'plain', 'min': 0, 'cl': False, 'vert': True, 'dc': 2,
+                  'cols': [[0, 0, 255], [0, 128, 255], [0, 255, 0], [255, 255, 0], [255, 128, 0], [255, 0, 0]], 'ops': [
+        ['b', [2.5, 5, 10]], ['ol'], ['sp', 'min', None], ['sp', 'max', 0], ['b', [-10, -5, -2.5]], ['ol'],
+        ['b', [-5]], ['ol'], ['g', [0, 0, 8, 4], [-10, 0]], ['ol'], ['sl', 'max', 0.0], ['sl', 'min', 0], ['ol']]}),
 ]
 
 
@@ -1245,13 +1327,1255 @@ def _oracle_cases(ctx):
         if c.get('ord') is not None:
             c['ord'] = [list(x) for x in c['ord']]
         yield 'legend', c
+    for op, inp in _history_cases(ctx, 2500 if big else 380):
+        yield op, inp
+
+
+def _jsonable(c):
+    import json
+    return json.loads(json.dumps({k: v for k, v in c.items() if k != 'exact'}))
+
+
+def _history_cases(ctx, n):
+    rng = ctx.rng
+    for i in range(n):
+        yield 'lhistory', _jsonable(gen_lhist(ctx, rng, rare_first=(i % 7 == 0)))
+    for i in range(n):
+        yield 'crhistory', _jsonable(gen_crhist(ctx, rng, rare_first=(i % 9 == 0)))
+
+
+def _order_pool(ctx):
+    """A slice of the oracle stream for the fresh-interpreter runs: the corpus + generated cases of
+    every op (plain one-shot cases and histories)."""
+    rng = ctx.rng
+    big = ctx.searching or not ctx.quick
+    pool = [(op, inp) for op, inp in CORPUS]
+    k = 0
+    for op, inp in _oracle_cases_plain(ctx, 260 if big else 90):
+        pool.append((op, _jsonable(inp)))
+        k += 1
+    for op, inp in _history_cases(ctx, 160 if big else 60):
+        pool.append((op, inp))
+    return pool
+
+
+def _oracle_cases_plain(ctx, n):
+    rng = ctx.rng
+    for _ in range(n):
+        ncol = rng.choice([2, 3, 5, 10, 20])
+        cols = [list(x) for x in gen_colors(rng, ncol)]
+        cont = rng.random() < 0.6
+        lo = float(rng.randrange(-50, 50))
+        dom = [lo, lo + rng.choice([0.0, 1.0, 9.0, 144.0])]
+        if not cont and ncol < 3:
+            continue
+        yield 'range', {'cols': cols, 'dom': dom, 'cont': cont, 'probes': 12, 't': rng.random()}
+    for cell in DEFAULT_GRID:
+        for _ in range(max(1, n // 40)):
+            c = gen_legend_defaults(ctx, rng, False, cell)
+            if c.get('cols') is not None:
+                c['cols'] = [list(x) for x in c['cols']]
+            yield 'legend', c
+    for _ in range(n):
+        c = gen_legend(ctx, rng, rng.random() < 0.4)
+        if c.get('cols') is not None:
+            c['cols'] = [list(x) for x in c['cols']]
+        if c.get('ord') is not None:
+            c['ord'] = [list(x) for x in c['ord']]
+        yield 'legend', c
 
 
 def oracle(ctx):
     run_oracle_cases(ctx, _oracle_cases(ctx), check_case)
+    process_orders(ctx, _order_pool(ctx))
 
 
-LEVEL_TEXT = ('Machine-checked Lean 4 theorems (28) over an executable Rat model of ColorRange, Legend and '
+
+# ---------------------------------------------------------------------------------------------
+# round 3: histories on ONE object, refused operations, consumers, process order
+#
+# Exact worlds: every generated bound / value / stop is a dyadic number chosen so that the float
+# arithmetic of the code is exact (colour step a power of two, segment step dyadic), hence histories
+# are compared bit for bit.  World 'pow2': 2/3/5/9/17 colours, 1/2/3/5/9/17 segments, widths 16*2^k;
+# 'tens': 6/11 colours, default (11)/2/3/6/11 segments, widths 10*2^k; 'nines': the default colour set
+# (10 colours), 1/2/3/5/9/17 segments, widths 9*2^k.
+
+WORLDS = {
+    'pow2': {'ncols': [2, 3, 5, 9, 17], 'counts': [1, 2, 3, 5, 9, 17],
+             'widths': [16 * 2.0 ** k for k in range(-2, 4)]},
+    'tens': {'ncols': [6, 11], 'counts': [None, None, 2, 3, 6, 11],
+             'widths': [10 * 2.0 ** k for k in range(-1, 4)]},
+    'nines': {'ncols': [None, None, 10], 'counts': [1, 2, 3, 5, 9, 17],
+              'widths': [9 * 2.0 ** k for k in range(-2, 4)]},
+}
+
+FIELD_ATTR = {'min': 'min', 'max': 'max', 'count': 'segment_count', 'cols': 'colors',
+              'cl': 'continuous_legend', 'vert': 'vertical', 'dc': 'decimal_count',
+              'ils': 'include_larger_smaller', 'ord': 'ordinal_dictionary', 'sh': 'segment_height',
+              'sw': 'segment_width', 'th': 'text_height', 'dom': 'domain', 'names': 'category_names',
+              'cc': 'continuous_colors'}
+BAD_VALUE = {'min': 'x', 'max': 'x', 'count': 2.5, 'cols': 5, 'cl': 'yes', 'vert': 'yes', 'dc': 1.5,
+             'ord': [1], 'sh': 'x', 'sw': 'x', 'th': 'x', 'dom': 5, 'names': 5, 'cc': 'yes'}
+
+
+def enc_ord(v):
+    if v is None:
+        return 'none'
+    return ('%d %s' % (len(v), ' '.join('%d %s' % (k, t) for k, t in v))) if v else '0'
+
+
+def enc_field(f, v):
+    if f in ('min', 'max', 'sh', 'sw', 'th'):
+        return '%s %s' % (f, opt(v))
+    if f in ('count', 'dc'):
+        return '%s %s' % (f, opt(v, str))
+    if f == 'cols':
+        return 'cols ' + ('none' if v is None else enc_cols(v))
+    if f in ('cl', 'vert', 'ils', 'cc'):
+        return '%s %s' % (f, opt(v, _b))
+    if f == 'ord':
+        return 'ord ' + enc_ord(v)
+    if f == 'dom':
+        return 'dom ' + enc_list(v)
+    if f == 'names':
+        return 'names ' + ('none' if v is None else ('%d %s' % (len(v), ' '.join(v))).strip())
+    if f == 'bad':
+        return 'bad ' + v
+    raise ValueError(f)
+
+
+def enc_lop(o):
+    k = o[0]
+    if k in ('sp', 'sl'):
+        return '%s %s' % (k, enc_field(o[1], o[2]))
+    if k == 'b':
+        return 'b ' + enc_list(o[1])
+    if k == 'g':
+        return 'g %s %s' % (rats(o[1]), enc_list(o[2]))
+    return k
+
+
+def lhist_line(c):
+    if c['kind'] == 'plain':
+        cols = 'none' if c['cols'] is None else enc_cols(c['cols'])
+        head = 'lhist plain %s %s %s %s %s %s %d %s %s %s %s %s' % (
+            opt(c['min']), opt(c['max']), opt(c['count'], str), cols, _b(c['cl']), _b(c['vert']), c['dc'],
+            _b(c['ils']), enc_ord(c['ord']), opt(c['sh']), opt(c['sw']), opt(c['th']))
+    else:
+        names = 'none' if c['names'] is None else '%d %s' % (len(c['names']), ' '.join(c['names']))
+        head = 'lhist cat %s %s %s %s %s %s %d %s %s %s %s' % (
+            enc_list(c['dom']), enc_cols(c['cols']), names, opt(c['cc'], _b), _b(c['cl']), _b(c['vert']),
+            c['dc'], opt(c['ils'], _b), opt(c['sh']), opt(c['sw']), opt(c['th']))
+    return '%s %d %s' % (head, len(c['ops']), ' '.join(enc_lop(o) for o in c['ops']))
+
+
+def enc_crop(o):
+    k = o[0]
+    if k == 'c':
+        return 'c ' + enc_cols(o[1])
+    if k == 'd':
+        return 'd ' + enc_list(o[1])
+    if k == 'r':
+        return 'r ' + rat(o[1])
+    return k
+
+
+def crhist_line(c):
+    return 'crhist %s %s %s %d %s' % (_b(c['cont']), enc_cols(c['cols']), enc_list(c['dom']), len(c['ops']),
+                                      ' '.join(enc_crop(o) for o in c['ops']))
+
+
+def _full_par_case(c):
+    c = dict(c)
+    for k in ('min', 'max', 'count', 'cols', 'ord', 'sh', 'sw', 'th', 'names', 'cc', 'ils'):
+        c.setdefault(k, None)
+    if c['kind'] == 'plain' and c['ils'] is None:
+        c['ils'] = False
+    if c.get('cols') is not None:
+        c['cols'] = [tuple(x) for x in c['cols']]
+    if c.get('ord') is not None:
+        c['ord'] = [tuple(x) for x in c['ord']]
+    return c
+
+
+def apply_field(lp, f, v):
+    """`lp.<attribute> = value` on the real object (raises what the setter raises)."""
+    from ladybug.color import Color
+    if f == 'bad':
+        setattr(lp, FIELD_ATTR[v], BAD_VALUE[v])
+        return
+    if f == 'cols' and v is not None:
+        v = [Color(*x) for x in v]
+    elif f == 'ord' and v is not None:
+        v = dict((int(k), t) for k, t in v)
+    elif f in ('dom', 'names') and v is not None:
+        v = list(v)
+    setattr(lp, FIELD_ATTR[f], v)
+
+
+def obs_live(lg):
+    """Every observable of a live legend the property speaks about (same layout as the driver)."""
+    lp = lg.legend_parameters
+
+    def mesh():
+        m = lg.segment_mesh_scene_2d
+        return '%d %d : %s' % (len(m.faces), len(m.vertices), show_colors(m.colors))
+
+    def crange():
+        cr = lg.color_range
+        return '%s : %s : %s' % (rats(cr.domain), show_colors(cr.colors), _b(cr.continuous_colors))
+
+    return ' | '.join([
+        'L %s %s %d %s %s' % (rat(lp.min), rat(lp.max), lp.segment_count, _b(lg.is_min_default),
+                              _b(lg.is_max_default)),
+        _sec(lambda: rats(lg.segment_numbers)),
+        _sec(lambda: show_colors(lg.segment_colors)),
+        _sec(lambda: show_colors(lg.value_colors)),
+        _sec(lambda: ';'.join(lg.segment_text)),
+        _sec(lambda: str(len(lg.segment_text_location))),
+        _sec(lambda: str(lg.segment_length)),
+        _sec(mesh),
+        _sec(crange)])
+
+
+def obs_par(lp):
+    """The public attributes of a parameters object (same layout as the driver)."""
+    from ladybug.legend import LegendParametersCategorized
+    ordd = lp.ordinal_dictionary
+    cat = 'none'
+    if isinstance(lp, LegendParametersCategorized):
+        cat = '%s : %s : %s' % (rats(lp.domain), ';'.join(lp.category_names), _b(lp.continuous_colors))
+    return ' | '.join([
+        'P %s %s %d %s' % (opt(lp.min), opt(lp.max), lp.segment_count, _b(lp.is_segment_count_default)),
+        show_colors(lp.colors),
+        '%s %s %d %s' % (_b(lp.continuous_legend), _b(lp.vertical), lp.decimal_count,
+                         _b(lp.include_larger_smaller)),
+        'none' if ordd is None else '{' + ','.join('%d:%s' % (k, ordd[k]) for k in ordd) + '}',
+        '%s %s %s' % (opt(None if lp.is_segment_height_default else lp.segment_height),
+                      opt(None if lp.is_segment_width_default else lp.segment_width),
+                      opt(None if lp.is_text_height_default else lp.text_height)),
+        cat])
+
+
+def _via_json(d):
+    import json
+    return json.loads(json.dumps(d))
+
+
+class Session(object):
+    """One parameters object and the legend built from it, driven by the op list of a history."""
+
+    def __init__(self, c):
+        self.par = make_par(c)
+        self.live = None
+        self.holder = None           # the GraphicContainer that owns the live legend, if any
+
+    def step(self, o):
+        """Run one op; returns the protocol output string."""
+        from ladybug.legend import Legend, LegendParameters, LegendParametersCategorized
+        k = o[0]
+        try:
+            if k == 'sp':
+                apply_field(self.par, o[1], o[2])
+                return 'ok'
+            if k in ('sl', 'ol', 'dl', 'tl') and self.live is None:
+                return 'nolegend'
+            if k == 'sl':
+                apply_field(self.live.legend_parameters, o[1], o[2])
+                return 'ok'
+            if k == 'b':
+                self.live = Legend(list(o[1]), self.par)
+                self.holder = None
+                return 'ok'
+            if k == 'g':
+                from ladybug.graphic import GraphicContainer
+                from ladybug_geometry.geometry3d.pointvector import Point3D
+                box = o[1]
+                gc = GraphicContainer(list(o[2]), Point3D(box[0], box[1], 0), Point3D(box[2], box[3], 0),
+                                      self.par)
+                self.live, self.holder = gc.legend, gc
+                return 'ok'
+            if k == 'ol':
+                return obs_live(self.live)
+            if k == 'op':
+                return obs_par(self.par)
+            if k == 'dp':
+                self.par = self.par.duplicate()
+                return 'ok'
+            if k == 'dl':
+                self.live = self.live.duplicate()
+                self.holder = None
+                return 'ok'
+            if k == 'tp':
+                cls = LegendParametersCategorized if isinstance(self.par, LegendParametersCategorized) \
+                    else LegendParameters
+                self.par = cls.from_dict(_via_json(self.par.to_dict()))
+                return 'ok'
+            if k == 'tl':
+                self.live = Legend.from_dict(_via_json(self.live.to_dict()))
+                self.holder = None
+                return 'ok'
+        except Exception as e:
+            return 'X:' + err_name(e)
+        raise ValueError('unknown history op %r' % (k,))
+
+
+def impl_lhist(c):
+    try:
+        s = Session(c)
+    except Exception as e:
+        return 'err:' + err_name(e)
+    return ' || '.join(['ok'] + [s.step(o) for o in c['ops']])
+
+
+class RangeSession(object):
+    def __init__(self, c):
+        self.cr = make_range(c)
+
+    def step(self, o):
+        from ladybug.color import Color
+        k = o[0]
+        try:
+            if k == 'c':
+                self.cr.colors = [Color(*x) for x in o[1]]
+                return 'ok'
+            if k == 'd':
+                self.cr.domain = list(o[1])
+                return 'ok'
+            if k == 'u':
+                self.cr = self.cr.duplicate()
+                return 'ok'
+            if k == 's':
+                return 'S %s : %s : %s' % (show_colors(self.cr.colors), rats(self.cr.domain),
+                                           _b(self.cr.continuous_colors))
+        except Exception as e:
+            return 'X:' + err_name(e)
+        if k == 'r':
+            try:
+                return show_rgb(self.cr.color(o[1]))
+            except Exception as e:
+                return 'E:' + err_name(e)
+        raise ValueError('unknown history op %r' % (k,))
+
+
+def impl_crhist(c):
+    try:
+        s = RangeSession(c)
+    except Exception as e:
+        return 'err:' + err_name(e)
+    return ' || '.join(['ok'] + [s.step(o) for o in c['ops']])
+
+
+def _hist_close(name_idx, a, b, cat):
+    """Safety net of the history comparison: numbers within 1e-12, colour channels within 1."""
+    if a == b:
+        return True
+    if name_idx in (0, 1):
+        ta, tb = a.split(), b.split()
+        if len(ta) != len(tb):
+            return False
+        for x, y in zip(ta, tb):
+            if x != y:
+                try:
+                    if not _close(Fraction(x), Fraction(y)):
+                        return False
+                except (ValueError, ZeroDivisionError):
+                    return False
+        return True
+    return False
+
+
+def compare_hist(ctx, op, cases, line_fn, impl_fn):
+    """History correspondence: the model's state machine and the real object step by step."""
+    drv = ctx.driver()
+    lines = [line_fn(c) for c in cases]
+    outs = drv.run(lines)
+    for c, line, mo in zip(cases, lines, outs):
+        io = impl_fn(c)
+        ctx.compared += 1
+        ctx.count('op:' + op)
+        ctx.case((op, line), nontrivial=not io.startswith('err:'))
+        if mo == io:
+            continue
+        ms, is_ = mo.split(' || '), io.split(' || ')
+        bad = None
+        if len(ms) != len(is_):
+            bad = 0
+        else:
+            for k, (a, b) in enumerate(zip(ms, is_)):
+                if a == b:
+                    continue
+                sa, sb = a.split(' | '), b.split(' | ')
+                cat = c.get('kind') == 'cat'
+                if a.startswith('L ') and b.startswith('L ') and len(sa) == len(sb) == 9 and cat and all(
+                        x == y or (j == 1 and _nums_close(x, y)) for j, (x, y) in enumerate(zip(sa, sb))):
+                    ctx.count('hist_cat_numbers_tolerated')
+                    continue            # categorised segment numbers: not used for colours or labels
+                bad = k
+                break
+        if bad is not None:
+            step = c['ops'][bad - 1] if 0 < bad <= len(c['ops']) else None
+            ctx.disagree(op, {'case': c, 'line': line, 'step_index': bad - 1, 'step': step,
+                              'ops_executed': c['ops'][:bad]},
+                         ms[bad] if bad < len(ms) else mo, is_[bad] if bad < len(is_) else io)
+    if cases:
+        ctx.sample({'op': op, 'request': lines[0][:600], 'model': outs[0][:600]})
+
+
+# -- generators of histories (shadow bookkeeping in plain numbers; nothing calls the code under test)
+
+
+def _lattice(rng, w):
+    """A bound on the lattice of width unit `w`; exact zero is a first-class stratum."""
+    r = rng.random()
+    if r < 0.3:
+        return 0.0 if rng.random() < 0.5 else 0
+    if r < 0.45:
+        return -w
+    return float(rng.randrange(-12, 12)) * rng.choice([0.25, 0.5, 1, 4])
+
+
+def _vals_for(rng, lo, hi, n=None):
+    """Data on the dyadic grid of [lo, hi] (ends included), some outside."""
+    n = n if n is not None else rng.randrange(1, 7)
+    w = hi - lo
+    vals = [lo, hi]
+    for _ in range(n):
+        vals.append(lo + w * rng.randrange(0, 65) / 64.0)
+    rng.shuffle(vals)
+    return vals
+
+
+def gen_lhist(ctx, rng, rare_first=False):
+    """One history on a parameters object and its legend."""
+    cat = rng.random() < 0.3
+    ops = []
+    c = {'kind': 'cat' if cat else 'plain', 'cl': rng.random() < 0.35, 'vert': rng.random() < 0.6,
+         'dc': rng.choice([0, 1, 2, 2, 3]), 'sh': None, 'sw': None, 'th': None}
+    if rng.random() < 0.25:
+        c['sh'] = rng.choice([0.5, 1, 2, 0.25])
+    if cat:
+        m = rng.choice([1, 1, 2, 2, 3, 4])
+
+        def newdom(m):
+            lo = float(rng.randrange(-16, 16)) * rng.choice([1, 0.5, 4])
+            if rng.random() < 0.2:
+                lo = 0.0
+            d = [lo]
+            for _ in range(m - 1):
+                d.append(d[-1] + 2.0 ** rng.randrange(-1, 6))
+            return d
+        dom = newdom(m)
+        c.update({'dom': list(dom), 'cols': gen_colors(rng, m + 1), 'cc': rng.choice([None, False, True]),
+                  'ils': rng.choice([None, True, False]),
+                  'names': [rng.choice(NAME_POOL) + str(i) for i in range(m + 1)] if rng.random() < 0.4 else None})
+        sh = {'names': c['names'], 'dom': dom}           # shadow of P
+        lsh = None                                       # shadow of the live legend
+        ctx.count('lhist:cat:domain_len:%d' % m)
+
+        def vals_cat(dom):
+            span = (dom[-1] - dom[0]) or 8.0
+            v = [dom[0] - span / 8, dom[-1] + span / 8]
+            for a, b in zip(dom, dom[1:]):
+                v += [a, a + (b - a) * rng.randrange(1, 8) / 8.0]
+            v.append(dom[-1])
+            rng.shuffle(v)
+            return v[:rng.randrange(1, len(v) + 1)]
+
+        def setter(t, s):
+            r = rng.random()
+            if r < 0.25:
+                k = rng.random()
+                if k < 0.6:
+                    d = newdom(m)
+                    s['dom'] = d
+                    d = list(d)
+                    if rng.random() < 0.3:
+                        rng.shuffle(d)
+                    return [t, 'dom', d]
+                ctx.count('lhist:refused:cat_domain_length')
+                return [t, 'dom', newdom(m + rng.choice([-1, 1, 2]))] if m + 0 > 1 or rng.random() < 0.7 \
+                    else [t, 'dom', []]
+            if r < 0.4:
+                k = rng.random()
+                if k < 0.6:
+                    return [t, 'cols', gen_colors(rng, m + 1)]
+                ctx.count('lhist:refused:cat_colors')
+                return [t, 'cols', rng.choice([None, gen_colors(rng, m), gen_colors(rng, m + 2)])]
+            if r < 0.55:
+                k = rng.random()
+                if k < 0.4:
+                    s['names'] = [rng.choice(NAME_POOL) + str(i) for i in range(m + 1)]
+                    return [t, 'names', list(s['names'])]
+                if k < 0.7:
+                    s['names'] = None
+                    return [t, 'names', None]
+                ctx.count('lhist:refused:cat_names')
+                return [t, 'names', [rng.choice(NAME_POOL) for _ in range(rng.choice([m, m + 2, 0]))]]
+            if r < 0.63:
+                return [t, 'cc', rng.choice([None, True, False])]
+            if r < 0.73:
+                return [t, 'ils', rng.choice([None, True, False])]
+            if r < 0.83:
+                return [t, 'dc', rng.choice([None, 0, 1, 2, 3, 5])]
+            if r < 0.9:
+                ctx.count('lhist:refused:cat_no_setter')
+                return [t, rng.choice(['min', 'max']), float(rng.randrange(-5, 5))] if rng.random() < 0.5 \
+                    else [t, 'count', rng.choice([2, 5, None])]
+            return common_setter(t)
+    else:
+        world = rng.choice(['pow2', 'pow2', 'tens', 'nines'])
+        W = WORLDS[world]
+        ctx.count('lhist:plain:world:' + world)
+
+        def newcols():
+            n = rng.choice(W['ncols'])
+            return None if n is None else gen_colors(rng, n)
+        w0 = rng.choice(W['widths'])
+        lo = _lattice(rng, w0)
+        bounds = rng.choice(['both', 'both', 'neither', 'min', 'max', 'equal'])
+        mn, mx = {'both': (lo, lo + w0), 'neither': (None, None), 'min': (lo, None), 'max': (None, lo + w0),
+                  'equal': (lo, lo)}[bounds]
+        ctx.count('lhist:plain:bounds:' + bounds)
+        if 0 in (mn, mx) and (mn == 0 or mx == 0):
+            ctx.count('lhist:plain:zero_bound')
+        c.update({'min': mn, 'max': mx, 'count': rng.choice(W['counts']), 'cols': newcols(),
+                  'ils': rng.random() < 0.3, 'ord': None})
+        if rng.random() < 0.15:
+            keys = sorted(set(rng.randrange(-4, 12) for _ in range(rng.randrange(0, 6))))
+            c['ord'] = [(k, rng.choice(NAME_POOL)) for k in keys]
+        sh = {'min': mn, 'max': mx}
+        lsh = None
+
+        def move(s, which):
+            """A new bound that keeps the width in the world (relative to the other bound)."""
+            other = s['max'] if which == 'min' else s['min']
+            r = rng.random()
+            if other is None:
+                return _lattice(rng, rng.choice(W['widths'])), True
+            if r < 0.2:
+                ctx.count('lhist:refused:min_above_max')
+                d = rng.choice(W['widths'])
+                return (other + d if which == 'min' else other - d), False
+            if r < 0.3:
+                return other, True                       # zero-width legend
+            d = rng.choice(W['widths'])
+            return (other - d if which == 'min' else other + d), True
+
+        def setter(t, s):
+            r = rng.random()
+            if r < 0.34:
+                which = rng.choice(['min', 'max'])
+                if t == 'sp' and rng.random() < 0.12:
+                    s[which] = None
+                    return [t, which, None]
+                v, ok = move(s, which)
+                if rng.random() < 0.3 and float(v).is_integer():
+                    v = int(v)                           # integers are numbers too
+                if ok:
+                    s[which] = v
+                if v == 0:
+                    ctx.count('lhist:set_zero_bound')
+                return [t, which, v]
+            if r < 0.46:
+                k = rng.choice(W['counts'] + [0])
+                if k == 0:
+                    ctx.count('lhist:refused:count_zero')
+                return [t, 'count', k]
+            if r < 0.58:
+                k = rng.random()
+                if k < 0.75:
+                    return [t, 'cols', newcols()]
+                ctx.count('lhist:refused:colors_too_few')
+                return [t, 'cols', gen_colors(rng, rng.choice([0, 1, 1]))]
+            if r < 0.66:
+                return [t, 'ils', rng.choice([None, True, False])]
+            if r < 0.74:
+                return [t, 'dc', rng.choice([None, 0, 1, 2, 3, 5])]
+            if r < 0.8:
+                if rng.random() < 0.4:
+                    return [t, 'ord', None]
+                keys = sorted(set(rng.randrange(-4, 12) for _ in range(rng.randrange(0, 6))))
+                return [t, 'ord', [(k, rng.choice(NAME_POOL)) for k in keys]]
+            if r < 0.85:
+                ctx.count('lhist:refused:plain_no_attribute')
+                return [t, rng.choice(['cc', 'names']), None] if rng.random() < 0.5 else [t, 'dom', [1.0]]
+            return common_setter(t)
+
+    def common_setter(t):
+        r = rng.random()
+        if r < 0.25:
+            return [t, 'cl', rng.choice([None, True, False])]
+        if r < 0.5:
+            return [t, 'vert', rng.choice([None, True, False])]
+        if r < 0.75:
+            f = rng.choice(['sh', 'sw', 'th'])
+            k = rng.random()
+            if k < 0.6:
+                return [t, f, rng.choice([0.25, 0.5, 1, 2, 3, 8, None])]
+            ctx.count('lhist:refused:dimension_not_positive')
+            return [t, f, rng.choice([0, 0.0, -1.0])]
+        ctx.count('lhist:refused:wrong_type')
+        pool = ['cols', 'cl', 'vert', 'dc', 'sh', 'sw', 'th'] + (
+            ['dom', 'names', 'cc'] if cat else ['min', 'max', 'count', 'ord'])
+        if rng.random() < 0.2:
+            pool = ['min', 'max', 'count', 'ord', 'dom', 'names', 'cc']
+        return [t, 'bad', rng.choice(pool)]
+
+    def build_op():
+        """(op, shadow of the new live legend or None when the build is refused)."""
+        if cat:
+            vals = vals_cat(sh['dom'])
+            new = {'names': sh['names'], 'dom': list(sh['dom'])}
+        else:
+            a, b = sh['min'], sh['max']
+            r = rng.random()
+            w = 0.0 if r < 0.15 else rng.choice(W['widths'])
+            if a is None and b is None:
+                lo = _lattice(rng, w or 1.0)
+                vals = _vals_for(rng, lo, lo + w)
+                new = {'min': lo, 'max': lo + w}
+            elif b is None:
+                vals = _vals_for(rng, a + w - rng.choice([0, w, 2 * w]) if w else a, a + w)
+                vals = [v for v in vals] + [a + w]
+                new = {'min': a, 'max': a + w}
+            elif a is None:
+                vals = _vals_for(rng, b - w, b - w + rng.choice([0, w, 2 * w])) + [b - w]
+                vals = [min(v, b + w) for v in vals]
+                new = {'min': b - w, 'max': b}
+                new['min'] = min(vals)
+                if (b - new['min']) not in W['widths'] + [0.0]:
+                    vals = [b - w, b - w / 2 if w else b, b]
+                    new['min'] = b - w
+            else:
+                span = (b - a) or 4.0
+                vals = _vals_for(rng, a, b) + [a - span / 4, b + span / 4]
+                new = {'min': a, 'max': b}
+            if rng.random() < 0.15:
+                vals = vals[:1] if (a is not None and b is not None) else [new['min']] if new['min'] == new['max'] \
+                    else vals
+                ctx.count('lhist:build:single_value' if len(vals) == 1 else 'lhist:build:several')
+        if rng.random() < 0.04:
+            ctx.count('lhist:refused:build_empty_values')
+            return ['b', []], None
+        if not cat and rng.random() < 0.05 and (sh['min'] is None) != (sh['max'] is None):
+            ctx.count('lhist:refused:build_data_beyond_bound')
+            if sh['max'] is None:
+                return ['b', [sh['min'] - 2.0, sh['min'] - 1.0]], None
+            return ['b', [sh['max'] + 1.0, sh['max'] + 2.0]], None
+        if rng.random() < 0.25:
+            box = (0.0, 0.0, rng.choice([8.0, 16.0, 1.0, 0.0]), rng.choice([4.0, 8.0, 32.0, 0.0]))
+            if box[2] == 0.0 and box[3] == 0.0:
+                ctx.count('lhist:refused:graphic_flat_box')
+                return ['g', list(box), vals], None if c.get('sh') is None and not any(
+                    o[0] == 'sp' and o[1] == 'sh' and o[2] is not None for o in ops) else new
+            return ['g', list(box), vals], new
+        return ['b', vals], new
+
+    nops = rng.choice([4, 6, 8, 10, 14])
+    # failing call first in some histories
+    if rare_first or rng.random() < 0.15:
+        ops.append(setter('sp', sh) if rng.random() < 0.5 else ['sp', 'bad', 'cols'])
+        ops.append(['op'])
+    for _ in range(rng.randrange(0, 3)):
+        ops.append(setter('sp', sh))
+        if rng.random() < 0.5:
+            ops.append(['op'])
+    o, new = build_op()
+    ops.append(o)
+    if new is not None:
+        lsh = new
+    ops.append(['ol'])
+    while len(ops) < nops:
+        r = rng.random()
+        if r < 0.4 and lsh is not None:
+            ops.append(setter('sl', lsh))
+            if rng.random() < 0.8:
+                ops.append(['ol'])
+                if rng.random() < 0.15:
+                    ops.append(['ol'])                       # the same question twice
+        elif r < 0.55:
+            ops.append(setter('sp', sh))
+            ops.append(rng.choice([['op'], ['ol'], ['op']]))
+        elif r < 0.7:
+            o, new = build_op()                              # the same parameters, other data
+            ops.append(o)
+            if new is not None:
+                lsh = new
+            ops.append(['ol'])
+        elif r < 0.8:
+            ops.append(rng.choice([['op'], ['ol']]))
+        elif r < 0.9:
+            k = rng.choice(['dp', 'dl', 'dl'])
+            if k == 'dl' and lsh is None:
+                k = 'dp'
+            ops.append([k])
+            ops.append(['ol'] if k == 'dl' else ['op'])
+        else:
+            k = rng.choice(['tp', 'tl'])
+            s = sh if k == 'tp' else lsh
+            if s is None or (cat and s['names'] is None):
+                k, s = 'dp', sh                              # generated names become explicit in a dict (C07)
+            ops.append([k])
+            ops.append(['ol'] if k == 'tl' else ['op'])
+    ops.append(['ol'])
+    ops.append(['op'])
+    c['ops'] = ops
+    c = _full_par_case(c)
+    ctx.count('lhist:ops', len(ops))
+    return c
+
+
+def gen_crhist(ctx, rng, rare_first=False):
+    """One history on a ColorRange (exact world: widths 144*2^k, power-of-two gaps)."""
+    ncols_pool = [2, 2, 3, 3, 5, 9, 17, 10, 1]
+    cont = rng.random() < 0.6
+
+    def colors(n):
+        return gen_colors(rng, n)
+
+    def accepted(n, k):
+        if cont:
+            return (k == 2 and n > 1) or (k != 2 and k <= n)
+        return k < n
+
+    def newdom(n):
+        """(domain argument, resulting stops or None when refused)."""
+        kind = rng.choice(['two', 'two', 'per', 'per', 'fewer', 'single', 'zero', 'many', 'dup', 'empty'])
+        lo = float(rng.randrange(-20, 20)) * rng.choice([1, 0.5, 8])
+        if rng.random() < 0.2:
+            lo = 0.0
+        if kind == 'two':
+            d = [lo, lo + 144 * 2.0 ** rng.randrange(-3, 3)]
+        elif kind == 'zero':
+            d = [lo, lo]
+        elif kind == 'single':
+            d = [lo]
+        elif kind == 'empty':
+            if (n - 1) not in (1, 2, 4, 8, 16) and cont:
+                d = [lo]
+            else:
+                d = []
+        else:
+            m = {'per': n if cont else max(1, n - 1), 'fewer': max(1, n - 2), 'many': n + rng.randrange(1, 3),
+                 'dup': max(3, n - 1)}[kind]
+            d = [lo]
+            for _ in range(m - 1):
+                d.append(d[-1] + 2.0 ** rng.randrange(-2, 6))
+            if kind == 'dup' and len(d) > 2:
+                i = rng.randrange(1, len(d))
+                d[i] = d[i - 1]
+                d = sorted(d)
+        if cont and len(d) in (0, 2) and not (len(d) == 2 and d[0] == d[1]):
+            kind = 'two'
+            d = [lo, lo + 144 * 2.0 ** rng.randrange(-3, 3)]
+        ctx.count('crhist:domain:' + kind)
+        eff = d if d else [0.0, 1.0]
+        if not accepted(n, len(eff)):
+            return d, None
+        if cont and len(eff) == 2:
+            step = (eff[1] - eff[0]) / (n - 1)
+            stops = [eff[0] + i * step for i in range(n)]
+        else:
+            stops = sorted(eff)
+        shown = list(d)
+        if rng.random() < 0.25:
+            rng.shuffle(shown)
+        return shown, stops
+
+    def probes(stops):
+        vs = []
+        i = rng.randrange(0, max(1, len(stops) - 1))
+        seg = stops[i:i + 2]
+        vs.append(rng.choice(stops))
+        if len(seg) == 2 and seg[1] > seg[0]:
+            vs.append(seg[0] + (seg[1] - seg[0]) * rng.randrange(1, 8) / 8.0)
+        span = (stops[-1] - stops[0]) or 1.0
+        vs.append(rng.choice([stops[0] - span / 8, stops[-1] + span / 8, stops[0], stops[-1]]))
+        return vs
+
+    n = rng.choice(ncols_pool)
+    cols = colors(n) if n != 10 or rng.random() < 0.3 else []
+    n_eff = len(cols) or 10
+    d, stops = newdom(n_eff)
+    tries = 0
+    while stops is None and tries < 5 and not rare_first:
+        d, stops = newdom(n_eff)
+        tries += 1
+    c = {'cont': cont, 'cols': cols, 'dom': d, 'ops': []}
+    ops = c['ops']
+    if stops is None:
+        ctx.count('crhist:refused:constructor')
+        ops.append(['s'])
+        return c
+    nops = rng.choice([4, 6, 8, 12])
+    while len(ops) < nops:
+        r = rng.random()
+        if r < 0.3:
+            m = rng.choice(ncols_pool)
+            new = colors(m) if m != 10 or rng.random() < 0.3 else []
+            m_eff = len(new) or 10
+            if cont and len(stops) == 2 and m_eff > 1 and n_eff == 2:
+                ok, ns = True, [stops[0] + i * (stops[1] - stops[0]) / (m_eff - 1) for i in range(m_eff)]
+            else:
+                ok, ns = accepted(m_eff, len(stops)) and not (cont and len(stops) == 2 and m_eff == 1), stops
+            ops.append(['c', new])
+            if ok:
+                n_eff, stops = m_eff, ns
+            else:
+                ctx.count('crhist:refused:colors')
+        elif r < 0.5:
+            d, ns = newdom(n_eff)
+            ops.append(['d', d])
+            if ns is not None:
+                stops = ns
+            else:
+                ctx.count('crhist:refused:domain')
+        elif r < 0.58:
+            ops.append(['u'])
+        elif r < 0.66:
+            ops.append(['s'])
+        else:
+            for v in probes(stops):
+                ops.append(['r', v])
+                if rng.random() < 0.1:
+                    ops.append(['r', v])
+    for v in probes(stops):
+        ops.append(['r', v])
+    ops.append(['s'])
+    ctx.count('crhist:ops', len(ops))
+    ctx.count('crhist:%s' % ('cont' if cont else 'seg'))
+    return c
+
+
+# -- the independent oracle on histories (real code only; nothing from the model)
+
+
+def _snap_range(cr, probe):
+    out = [show_colors(cr.colors), rats(cr.domain), _b(cr.continuous_colors), str(len(cr))]
+    for v in probe:
+        try:
+            out.append(show_rgb(cr.color(v)))
+        except Exception as e:
+            out.append('E:' + type(e).__name__)
+    return out
+
+
+def check_crhistory(inp):
+    """Statement of C15 along a history on one ColorRange: after every step the live range colours
+    like a range built in one go from its public state and satisfies the stop / between / monotone /
+    clamp / interval clauses; a refused assignment changes nothing; reads change nothing."""
+    from ladybug.color import Color, ColorRange
+    c = {'cont': bool(inp['cont']), 'cols': [tuple(x) for x in inp['cols']], 'dom': list(inp['dom'])}
+    sig = {'cont': c['cont']}
+    try:
+        s = RangeSession(c)
+    except Exception:
+        return None                                  # refused constructor (checked by the correspondence)
+    done = []
+
+    def fail(clause, req, obs, **kw):
+        return {'required': req, 'observed': obs, 'sig': dict(sig, clause=clause, **kw), 'ops_executed': done}
+
+    for o in inp['ops']:
+        o = list(o)
+        cr = s.cr
+        stops = list(cr.domain)
+        span = (stops[-1] - stops[0]) or 1.0
+        probe = sorted(set(stops + [stops[0] - span / 4, stops[-1] + span / 4] +
+                           [a + (b - a) * t for a, b in zip(stops, stops[1:]) for t in (0.25, 0.5)]))
+        before = _snap_range(cr, probe)
+        out = s.step(o)
+        done.append(o)
+        cr = s.cr
+        after = _snap_range(cr, probe)
+        if out.startswith('X:') and after != before:
+            return fail('refused_changed', before, after, step=o[0], error=out[2:])
+        if o[0] in ('r', 's', 'u') and after != before:
+            return fail('read_changed' if o[0] != 'u' else 'duplicate_differs', before, after, step=o[0])
+        if o[0] == 'c' and out == 'ok' and o[1] and [_rgb(x) for x in cr.colors] != [tuple(x) for x in o[1]]:
+            return fail('colors_not_stored', o[1], [_rgb(x) for x in cr.colors], step='c')
+        if any(x.startswith('E:') for x in after):
+            return fail('color_raises', 'a colour for every value', after, step=o[0])
+        # the live range against a range built in one go from its public state
+        try:
+            fresh = ColorRange([Color(*_rgb(x)) for x in cr.colors], list(cr.domain), cr.continuous_colors)
+        except Exception as e:
+            return fail('public_state_not_constructible', 'ColorRange(colors, domain) accepted',
+                        'raises %s' % type(e).__name__, step=o[0])
+        stops2 = list(cr.domain)
+        span = (stops2[-1] - stops2[0]) or 1.0
+        probe2 = sorted(set(stops2 + [stops2[0] - span / 4, stops2[-1] + span / 4] +
+                            [a + (b - a) * t for a, b in zip(stops2, stops2[1:]) for t in (0.125, 0.5, 0.875)]))
+        if list(fresh.domain) == stops2:
+            a, b = _snap_range(cr, probe2), _snap_range(fresh, probe2)
+            if a != b:
+                return fail('history_differs_from_fresh', b, a, step=o[0])
+        # the statement's clauses on the live object
+        strict = all(a < b for a, b in zip(stops2, stops2[1:])) or len(set(stops2)) == 1
+        if out == 'ok' and o[0] in ('c', 'd', 'u') and strict:   # duplicated stops: first match wins (modelled)
+            res = check_range({'cols': [list(_rgb(x)) for x in cr.colors], 'dom': stops2,
+                               'cont': cr.continuous_colors, 'probes': 8}, live=cr)
+            if res:
+                res['sig'] = dict(res.get('sig') or {}, after=o[0])
+                res['ops_executed'] = done
+                return res
+    return None
+
+
+def _fresh_par(lp):
+    """Parameters built in one go (constructor + setters) from the public attributes of `lp`."""
+    from ladybug.color import Color
+    from ladybug.legend import LegendParameters, LegendParametersCategorized
+    cols = [Color(*_rgb(x)) for x in lp.colors]
+    if isinstance(lp, LegendParametersCategorized):
+        new = LegendParametersCategorized(list(lp.domain), cols, None)
+        try:
+            given = lp._category_names          # whether names were given is not readable publicly
+        except AttributeError:
+            given = None
+        if given:
+            new.category_names = list(lp.category_names)
+        new.continuous_colors = lp.continuous_colors
+    else:
+        new = LegendParameters(lp.min, lp.max, None if lp.is_segment_count_default else lp.segment_count, cols)
+        new.ordinal_dictionary = None if lp.ordinal_dictionary is None else dict(lp.ordinal_dictionary)
+    new.continuous_legend = lp.continuous_legend
+    new.vertical = lp.vertical
+    new.decimal_count = lp.decimal_count
+    new.include_larger_smaller = lp.include_larger_smaller
+    if not lp.is_segment_height_default:
+        new.segment_height = lp.segment_height
+    if not lp.is_segment_width_default:
+        new.segment_width = lp.segment_width
+    if not lp.is_text_height_default:
+        new.text_height = lp.text_height
+    return new
+
+
+def _expected_names(lp):
+    fmt = '%.{}f'.format(lp.decimal_count)
+    n = [fmt % x for x in lp.domain]
+    mid = tuple('{} - {}'.format(n[i], n[i + 1]) for i in range(len(n) - 1))
+    if lp.include_larger_smaller:
+        return ('<' + n[0],) + mid + ('>' + n[-1],)
+    return (n[0],) + mid + (n[-1],)
+
+
+def _live_clauses(lg, exp):
+    """The legend clauses of C15 on a live legend, phrased on its own public state + what the user
+    established (`exp`: last accepted bounds / count / names / domain)."""
+    from ladybug.color import Color, ColorRange
+    from ladybug.legend import LegendParametersCategorized
+    par = lg.legend_parameters
+    cat = isinstance(par, LegendParametersCategorized)
+    vals = list(lg.values)
+    n = par.segment_count
+    for k in ('min', 'max'):
+        if exp.get(k) is not None and getattr(par, k) != exp[k]:
+            return ('established_' + k, exp[k], getattr(par, k))
+    if exp.get('count') is not None and n != exp['count']:
+        return ('established_count', exp['count'], n)
+    if par.min > par.max:
+        return ('bounds_order', 'min <= max', (par.min, par.max))
+    nums = list(lg.segment_numbers)
+    if len(nums) != n:
+        return ('numbers_length', n, len(nums))
+    scale = max(abs(Fraction(par.min)), abs(Fraction(par.max)), Fraction(1, 10 ** 300))
+    for i, x in enumerate(nums):
+        want = Fraction(par.min) + (i * (Fraction(par.max) - Fraction(par.min)) / (n - 1) if n > 1 else 0)
+        if abs(Fraction(x) - want) > Fraction(1, 10 ** 9) * scale:
+            return ('numbers_even', float(want), x)
+    text, scol, pos = list(lg.segment_text), lg.segment_colors, lg.segment_text_location
+    if not (len(text) == len(scol) == len(pos) == n):
+        return ('per_segment_counts', n, (len(text), len(scol), len(pos)))
+    if cat:
+        dom = list(par.domain)
+        if exp.get('dom') is not None and dom != sorted(float(x) for x in exp['dom']):
+            return ('established_domain', exp['dom'], dom)
+        if (par.min, par.max, n) != (dom[0], dom[-1], len(dom) + 1):
+            return ('categorised_bounds', (dom[0], dom[-1], len(dom) + 1), (par.min, par.max, n))
+        want = tuple(exp['names']) if exp.get('names') else _expected_names(par)
+        if not exp.get('names_unknown') and tuple(text) != tuple(str(x) for x in want):
+            return ('categorised_names', list(want), text)
+        ref = ColorRange([Color(*_rgb(x)) for x in par.colors], dom, par.continuous_colors)
+        if [_rgb(x) for x in scol] != [_rgb(x) for x in par.colors]:
+            return ('categorised_colours', [_rgb(x) for x in par.colors], [_rgb(x) for x in scol])
+    else:
+        ref = ColorRange([Color(*_rgb(x)) for x in par.colors], [par.min, par.max])
+        for i, x in enumerate(nums):
+            if _rgb(scol[i]) != _rgb(ref.color(x)):
+                return ('segment_colours', _rgb(ref.color(x)), _rgb(scol[i]))
+    vc = lg.value_colors
+    if len(vc) != len(vals):
+        return ('value_colors_length', len(vals), len(vc))
+    for i, v in enumerate(vals):
+        if _rgb(vc[i]) != _rgb(ref.color(v)):
+            return ('value_colors_order', _rgb(ref.color(v)), _rgb(vc[i]))
+    cells = n - 1 if par.continuous_legend else n
+    if lg.segment_length != cells:
+        return ('segment_length', cells, lg.segment_length)
+    if cells >= 1 and (len(lg.segment_mesh_scene_2d.faces) != cells or len(lg.segment_mesh.faces) != cells):
+        return ('mesh_cells', cells, len(lg.segment_mesh_scene_2d.faces))
+    return None
+
+
+def _norm_default(kind, f, v):
+    if v is not None:
+        return v
+    return {'count': 11, 'cl': False, 'vert': True, 'dc': 2, 'ils': kind == 'cat', 'cc': False}.get(f)
+
+
+def check_lhistory(inp):
+    """Statement of C15 along a history on one parameters object and the legend built from it:
+    after every step the legend describes the state the user established (bounds, count, domain,
+    names as last accepted), its observables equal those of a legend built in one go from its public
+    state, a refused operation leaves every observable of both objects as before, reads change
+    nothing, and an assignment to one object does not leak into the other."""
+    from ladybug.legend import Legend, LegendParametersCategorized
+    c = _full_par_case(inp)
+    kind = c['kind']
+    sig = {'kind': kind}
+    try:
+        s = Session(c)
+    except Exception:
+        return None
+    done = []
+    exp_p = {'min': c.get('min'), 'max': c.get('max'), 'names': c.get('names'), 'dom': c.get('dom')}
+    exp_l = {}
+
+    def snap():
+        a = _sec(lambda: obs_par(s.par))
+        b = 'nolegend' if s.live is None else _sec(lambda: obs_live(s.live))
+        return a, b
+
+    def fail(clause, req, obs, **kw):
+        return {'required': req, 'observed': obs, 'sig': dict(sig, clause=clause, **kw), 'ops_executed': done}
+
+    for o in inp['ops']:
+        o = list(o)
+        k = o[0]
+        before = snap()
+        out = s.step(o)
+        done.append(o)
+        after = snap()
+        if out.startswith('X:'):
+            if after != before:
+                return fail('refused_changed', before, after, step=k, field=o[1] if k in ('sp', 'sl') else k,
+                            error=out[2:])
+            continue
+        if k in ('ol', 'op'):
+            if after != before:
+                return fail('read_changed', before, after, step=k)
+            if out != (after[1] if k == 'ol' else after[0]) and out != 'nolegend':
+                return fail('read_not_repeatable', out, after, step=k)
+        if k == 'sp' and after[1] != before[1]:
+            return fail('parameters_leak_into_legend', before[1], after[1], step=k, field=o[1])
+        if k == 'sl' and after[0] != before[0]:
+            return fail('legend_leaks_into_parameters', before[0], after[0], step=k, field=o[1])
+        if k in ('b', 'g', 'dl', 'tl') and after[0] != before[0]:
+            return fail('build_changed_parameters', before[0], after[0], step=k)
+        if k in ('dp', 'tp') and after != before and not (
+                k == 'tp' and kind == 'cat' and not exp_p.get('names')):
+            return fail('copy_differs', before, after, step=k)
+        if k in ('dl', 'tl') and after[1] != before[1] and out == 'ok':
+            # a copy re-resolves a defaulted segment count; everything else must be equal
+            sb, sa = before[1].split(' | '), after[1].split(' | ')
+            lp = s.live.legend_parameters
+            if not (lp.is_segment_count_default and sb[0].split()[:3] == sa[0].split()[:3]) and not (
+                    k == 'tl' and kind == 'cat' and not exp_l.get('names')):
+                return fail('copy_differs', before[1], after[1], step=k)
+        # what the user established
+        if k in ('sp', 'sl') and out == 'ok':
+            tgt, e = (s.par, exp_p) if k == 'sp' else (s.live.legend_parameters, exp_l)
+            f, v = o[1], o[2]
+            if f in ('min', 'max', 'count', 'cl', 'vert', 'dc', 'ils', 'cc', 'sh', 'sw', 'th') and not (
+                    v is None and f in ('min', 'max', 'sh', 'sw', 'th')):
+                got = getattr(tgt, FIELD_ATTR[f])
+                if got != _norm_default(kind, f, v):
+                    return fail('setter_not_stored', _norm_default(kind, f, v), got, step=k, field=f)
+            if f in ('min', 'max'):
+                e[f] = v
+            elif f == 'count':
+                e['count'] = _norm_default(kind, f, v) if k == 'sl' else None
+            elif f == 'dom':
+                e['dom'] = list(v)
+                e['min'] = e['max'] = None
+            elif f == 'names':
+                e['names'] = list(v) if v else None
+                e['names_unknown'] = False
+        if k in ('b', 'g') and out == 'ok':
+            vals = list(o[1] if k == 'b' else o[2])
+            exp_l = {'min': exp_p.get('min') if exp_p.get('min') is not None else (
+                         min(vals) if kind == 'plain' else None),
+                     'max': exp_p.get('max') if exp_p.get('max') is not None else (
+                         max(vals) if kind == 'plain' else None),
+                     'names': exp_p.get('names'), 'dom': exp_p.get('dom'),
+                     'names_unknown': exp_p.get('names_unknown', False)}
+            if list(s.live.values) != vals:
+                return fail('values_kept', vals, list(s.live.values), step=k)
+        if k == 'tp' and kind == 'cat' and not exp_p.get('names'):
+            exp_p['names_unknown'] = True
+        if k == 'tl' and kind == 'cat' and not exp_l.get('names'):
+            exp_l['names_unknown'] = True
+        if k in ('dl', 'tl'):
+            exp_l['count'] = None
+        if s.live is None:
+            continue
+        try:
+            res = _live_clauses(s.live, exp_l)
+        except Exception as e:
+            return fail('legend_raises', 'a legend that can be read', 'raises %s: %s' % (type(e).__name__, e),
+                        step=k, error=type(e).__name__)
+        if res:
+            return fail(res[0], res[1], res[2], step=k, field=o[1] if k in ('sp', 'sl') else k)
+        # the live legend against a legend built in one go from its public state
+        lp = s.live.legend_parameters
+        try:
+            fp = _fresh_par(lp)
+            if not isinstance(lp, LegendParametersCategorized) and lp.is_segment_count_default:
+                fp.segment_count = lp.segment_count        # the resolved default is part of the state
+            fresh = Legend(list(s.live.values), fp)
+            a, b = obs_live(s.live).split(' | '), obs_live(fresh).split(' | ')
+        except Exception as e:
+            return fail('public_state_not_constructible', 'a legend from the public state',
+                        'raises %s: %s' % (type(e).__name__, e), step=k, error=type(e).__name__)
+        a[0] = ' '.join(a[0].split()[:4])
+        b[0] = ' '.join(b[0].split()[:4])
+        if a != b:
+            part = [i for i, (x, y) in enumerate(zip(a, b)) if x != y]
+            return fail('history_differs_from_fresh', b, a, step=k, part=part[0] if part else -1)
+    return None
+
+
+# -- process order: the same oracle cases in fresh interpreters, in different orders
+
+_WORKER_CODE = ('import sys; sys.path.insert(0, %r); from harness.props import c15; c15._worker_main()')
+
+
+def _worker_main():
+    import json
+    import sys
+    sys.path.insert(0, core.REPO)
+    data = json.load(sys.stdin)
+    fails = []
+    for i, (op, inp) in enumerate(data['order']):
+        try:
+            res = check_case(op, inp)
+        except Exception as e:
+            res = {'required': 'oracle evaluates', 'observed': 'exception %s: %s' % (type(e).__name__, e),
+                   'sig': {'exception': type(e).__name__}}
+        if res:
+            fails.append({'index': i, 'op': op, 'input': inp, 'required': res.get('required'),
+                          'observed': res.get('observed'), 'sig': res.get('sig')})
+            if len(fails) >= data.get('cap', 3):
+                break
+    json.dump({'fails': fails}, sys.stdout, default=str)
+
+
+def _spawn_order(order, cap=3):
+    import json
+    import os
+    import subprocess
+    import sys
+    env = dict(os.environ, LADYBUG_REPO=core.REPO, PYTHONDONTWRITEBYTECODE='1')
+    p = subprocess.Popen([sys.executable, '-c', _WORKER_CODE % core.ROOT], stdin=subprocess.PIPE,
+                         stdout=subprocess.PIPE, stderr=subprocess.PIPE, env=env)
+    p._payload = json.dumps({'order': order, 'cap': cap}, default=str).encode('utf-8')
+    return p
+
+
+def _finish_order(p):
+    import json
+    out, err = p.communicate(p._payload, timeout=900)
+    if p.returncode != 0:
+        return [{'index': 0, 'op': 'import', 'input': {}, 'required': 'process runs',
+                 'observed': err.decode('utf-8', 'replace')[-300:], 'sig': {'exception': 'worker'}}]
+    return json.loads(out.decode('utf-8'))['fails']
+
+
+def _run_order(order, cap=1):
+    return _finish_order(_spawn_order(order, cap))
+
+
+def _shrink_order(order, idx, budget=10):
+    failing, prefix = order[idx], order[:idx]
+
+    def still(pre):
+        fs = _run_order(pre + [failing], cap=len(pre) + 1)
+        return any(f['index'] == len(pre) for f in fs)
+
+    if still([]):
+        return [failing]
+    budget -= 1
+    chunk = max(1, len(prefix) // 2)
+    while budget > 0 and prefix:
+        i, removed = 0, False
+        while i < len(prefix) and budget > 0:
+            trial = prefix[:i] + prefix[i + chunk:]
+            budget -= 1
+            if still(trial):
+                prefix, removed = trial, True
+            else:
+                i += chunk
+        if chunk == 1 and not removed:
+            break
+        chunk = max(1, chunk // 2)
+    return prefix + [failing]
+
+
+def _rarity(case):
+    """Sort key: rare classes first (refusing histories, categorised, zero bounds, single values)."""
+    op, inp = case
+    s = repr(inp)
+    refusing = op in ('lhistory', 'crhistory') and ("'bad'" in s or '"bad"' in s)
+    single = op == 'legend' and len(set(inp.get('vals', [0, 1]))) == 1
+    cat = inp.get('kind') == 'cat'
+    zero = op in ('legend', 'lhistory') and (inp.get('min') == 0 or inp.get('max') == 0)
+    return (0 if refusing else 1, 0 if zero else 1, 0 if single else 1, 0 if cat else 1)
+
+
+def process_orders(ctx, pool):
+    rng = ctx.rng
+    nproc = 4 if (ctx.searching or not ctx.quick) else 3
+    orders = []
+    for w in range(nproc):
+        o = list(pool)
+        rng.shuffle(o)
+        if w == 0:
+            o.sort(key=_rarity)
+            ctx.count('order:rare_first')
+        elif w == 1:
+            o.sort(key=lambda cs: tuple(1 - x for x in _rarity(cs)))
+            ctx.count('order:common_first')
+        else:
+            ctx.count('order:shuffled')
+        orders.append(o)
+    procs = [(_spawn_order(o), o) for o in orders]
+    for p, o in procs:
+        fs = _finish_order(p)
+        ctx.count('process_order_runs')
+        ctx.count('process_order_cases', len(o))
+        ctx.case(('process_order', ctx.evaluations))
+        if fs and len(ctx.failures) < 200:
+            f = fs[0]
+            small = _shrink_order(o, f['index']) if f['op'] != 'import' else []
+            sig = dict(f.get('sig') or {})
+            sig.update({'stage': 'process_order', 'at': f['op'], 'order_dependent': len(small) > 1})
+            ctx.fail('process_order', {'order': small}, f['required'], f['observed'], sig)
+
+
+def check_process_order(inp):
+    fs = _run_order([list(x) for x in inp['order']], cap=1)
+    if not fs:
+        return None
+    f = fs[0]
+    sig = dict(f.get('sig') or {})
+    sig.update({'stage': 'process_order', 'at': f['op']})
+    return {'required': f['required'], 'observed': f['observed'], 'sig': sig}
+
+
+LEVEL_TEXT = ('Machine-checked Lean 4 theorems (31) over an executable Rat model of ColorRange, Legend and '
               'GraphicContainer: for every colour list, domain and value: stop exactness, every channel between '
               'the neighbouring stop channels, monotone movement in the value (Python round is monotone), '
               'clamping beyond the ends, segmented interval colour, zero-width and one-boundary domains, '
@@ -1261,8 +2585,13 @@ LEVEL_TEXT = ('Machine-checked Lean 4 theorems (28) over an executable Rat model
               'with first = min and last = max, all per-segment lists of length n, mesh cells n / n-1, label '
               'content (round(number, decimals) at token level, < > marks, ordinal dictionary), value colours = '
               'map of the colour range, defaults from the resolved bounds, categorised legends use their own '
-              'domain/colours/names, a GraphicContainer colours like its own legend. The model is compared with '
-              'the real classes on exact (bit for bit) and float (near-tie rule) streams.')
+              'domain/colours/names, a GraphicContainer colours like its own legend; object state machines for '
+              'histories on one ColorRange / parameters object / legend: a refused operation leaves the state '
+              'unchanged, reads are pure and commute, and after ANY history plain parameters equal the object '
+              'built in one go from their final public attributes (no hidden state). The model is compared with '
+              'the real classes on exact (bit for bit) and float (near-tie rule) streams and, step by step, on '
+              'generated histories (assignments incl. refused ones, rebuilds, copies, dict round trips, reads); '
+              'the history oracle and a fresh-interpreter order run judge the real objects independently.')
 LEVEL_NOTE = ('Trusted: Lean kernel; axioms propext/Classical.choice/Quot.sound only; the correspondence run '
               '(agreement on generated inputs only); exact-vs-float arithmetic (rounding ties counted, not '
               'proved); ladybug_geometry mesh counts; the hand-copied default colour set; text formatting is '
